@@ -88,7 +88,8 @@ ResClauses(c) ==
       todini(t) == <<Sub(Pout(t), Pexp(t)), Sub(Add(PinR(t), PinP(t)), Pexp(t))>>
       effr == <<N(c.eff), FromInt(100)>>
       power(t, p) == RDiv(RDec(Mul(Mul(FromInt(9810), gain(t, p)), Row(c, "flow", t, p.name))), effr) IN
-  UNION {bad("C20.todini", Sgn(todini(t)[2]) = 0 \/
+  \* (a denominator that cancels to rounding noise - below 1e-9 of its terms - leaves the index undefined: any value passes)
+  UNION {bad("C20.todini", Leq(Abs(todini(t)[2]), Mul(Sci(1, -9), Add(Add(Abs(PinR(t)), Abs(PinP(t))), Abs(Pexp(t))))) \/
                            (IF todini(t)[2].n THEN RClose(N(c.obs.todini[t]), <<Neg(todini(t)[1]), Neg(todini(t)[2])>>, Sci(1, -12), Tol)
                             ELSE RClose(N(c.obs.todini[t]), todini(t), Sci(1, -12), Tol)))
          \cup UNION {LET pexp == Add(N(c.Pstar), elev(t, J[k]))  pout == Row(c, "head", t, J[k]) IN
